@@ -257,6 +257,18 @@ type modSpec struct {
 	slice SlV
 	mapv  Sc
 	fam   string
+	prefix string         // structfamily: field path the clause is restricted to ("" = all fields)
+	but   map[string]bool // everything_but: struct family keys that are preserved
+}
+
+// butFor: the modifies clauses contain an everything_but(...); the keys it preserves.
+func butFor(mods []modSpec) (map[string]bool, bool) {
+	for _, m := range mods {
+		if m.kind == "everything_but" {
+			return m.but, true
+		}
+	}
+	return nil, false
 }
 
 func (ex *Exec) modSpecs(fr *Frame, ct *Contract) []modSpec {
@@ -269,6 +281,17 @@ func (ex *Exec) modSpecs(fr *Frame, ct *Contract) []modSpec {
 				switch id.Name {
 				case "everything":
 					out = append(out, modSpec{kind: "everything"})
+					continue
+				case "everything_but":
+					but := map[string]bool{}
+					for _, a := range call.Args {
+						t, absent := env.resolveTypeArg(a)
+						if absent {
+							continue
+						}
+						but[typeKey(t)] = true
+					}
+					out = append(out, modSpec{kind: "everything_but", but: but})
 					continue
 				case "elems":
 					out = append(out, modSpec{kind: "elems", slice: env.eval(call.Args[0]).(SlV)})
@@ -296,11 +319,11 @@ func (ex *Exec) modSpecs(fr *Frame, ct *Contract) []modSpec {
 					out = append(out, modSpec{kind: "elemfamily", fam: typeKey(t)})
 					continue
 				case "structfamily":
-					t := env.resolveType(call.Args[0])
-					if t == nil {
-						specErr("structfamily: unknown type")
+					t, absent := env.resolveTypeArg(call.Args[0])
+					if absent {
+						continue
 					}
-					out = append(out, modSpec{kind: "structfamily", fam: typeKey(t)})
+					out = append(out, modSpec{kind: "structfamily", fam: typeKey(t), prefix: famPrefixArg(call)})
 					continue
 				case "mapfamily":
 					t := env.resolveType(call.Args[0])
@@ -332,6 +355,11 @@ func (ex *Exec) frameRelation(mods []modSpec, name string, cur *Term, r, k *Term
 	old := entry.heap(name, heapSorts[name])
 	parts := strings.SplitN(name, "|", 3)
 	fam, key, leaf := parts[0], parts[1], parts[2]
+	if but, ok := butFor(mods); ok && !strings.HasPrefix(name, "G|ghost") {
+		if fam != "H" || !but[key] {
+			return False, True, false // may change arbitrarily
+		}
+	}
 	matches := func(l Loc) bool {
 		prefix, _, _ := pathString(l.Root, l.Path)
 		return leaf == prefix || strings.HasPrefix(leaf, prefix+".") || prefix == ""
@@ -340,7 +368,7 @@ func (ex *Exec) frameRelation(mods []modSpec, name string, cur *Term, r, k *Term
 	switch fam {
 	case "H":
 		for _, m := range mods {
-			if m.kind == "structfamily" && m.fam == key {
+			if m.kind == "structfamily" && m.fam == key && underPrefix(leaf, m.prefix) {
 				return False, True, false
 			}
 			if m.kind == "loc" && m.loc.Kind == LHeap && typeKey(m.loc.Root) == key && matches(m.loc) {
@@ -437,7 +465,7 @@ func (ex *Exec) frameObligations(fr *Frame, out *State, ct *Contract, kind strin
 			detail += "." + w.Prefix
 		}
 		switch w.Kind {
-		case "everything":
+		case "everything", "everything_but":
 			goal = False
 		case "global":
 			goal = False
@@ -463,7 +491,7 @@ func (ex *Exec) frameObligations(fr *Frame, out *State, ct *Contract, kind strin
 		case "structfamily":
 			goal = False
 			for _, m := range mods {
-				if m.kind == "structfamily" && m.fam == w.Key {
+				if m.kind == "structfamily" && m.fam == w.Key && underPrefix(w.Prefix, m.prefix) && (w.Prefix != "" || m.prefix == "") {
 					goal = True
 				}
 			}
@@ -484,7 +512,7 @@ func (ex *Exec) frameObligations(fr *Frame, out *State, ct *Contract, kind strin
 			}
 			cov := []*Term{Not(ULt(w.Ref, entry.Alloc))}
 			for _, m := range mods {
-				if m.kind == "structfamily" && m.fam == w.Key {
+				if m.kind == "structfamily" && m.fam == w.Key && underPrefix(w.Prefix, m.prefix) {
 					cov = append(cov, True)
 				}
 				if m.kind == "loc" && m.loc.Kind == LHeap && typeKey(m.loc.Root) == w.Key {
@@ -538,6 +566,37 @@ func (ex *Exec) frameObligations(fr *Frame, out *State, ct *Contract, kind strin
 		default:
 			continue
 		}
+		if but, ok := butFor(mods); ok {
+			switch w.Kind {
+			case "field", "structfamily":
+				if !but[w.Key] {
+					goal = True
+				}
+			case "everything":
+				// not covered
+			case "everything_but":
+				// the callee preserves at least what this function promises to preserve
+				cov := true
+				callee := map[string]bool{}
+				for _, k := range strings.Split(w.Key, ",") {
+					callee[k] = true
+				}
+				for k := range but {
+					if !callee[k] {
+						cov = false
+					}
+				}
+				if cov {
+					goal = True
+				}
+			case "global":
+				if !strings.HasPrefix(w.Key, "ghost") {
+					goal = True
+				}
+			default:
+				goal = True
+			}
+		}
 		key := detail + "/" + fmt.Sprint(goal.id) + "/" + fmt.Sprint(w.Guard.id)
 		if goal == True || seenKey[key] {
 			continue
@@ -574,6 +633,9 @@ func (ex *Exec) assumeLoopFrame(st *State, name string, cur *Term) {
 	}
 	fam := name[:1]
 	g := st.G
+	if _, ok := butFor(mods); ok && fam != "H" && !strings.HasPrefix(name, "G|ghost") {
+		return
+	}
 	switch fam {
 	case "G":
 		hyp, eq, _ := ex.frameRelation(mods, name, cur, nil, nil)
